@@ -104,7 +104,9 @@ func walk[S, T any](ctx context.Context, g *graph[S], t *traversal[S, T]) error 
 		for {
 			select {
 			case <-ctx.Done():
-				return nil
+				// a failed visit (its error was recorded first and is the one reported), or the caller's
+				// context: services are left unvisited, which must not look like success
+				return context.Cause(ctx)
 			case node := <-nodeCh:
 				verifYield("receive", node.key)
 				expect--
